@@ -1,0 +1,61 @@
+//go:build verif
+
+// Contracts for contract-based deductive verification (govc, /verif).
+// This file contains comments only; it adds no code to the package.
+
+package retrieval
+
+//@ opaque github.com/gauss-project/aurorafs/pkg/boson.Address as Addr
+
+//@ # ---- assumed here, proved elsewhere: the two chunk validity checks (C04, C05) ----------------------
+//@ spec func cacOK(c int) bool
+//@ spec func socOK(c int) bool
+//@ extern func github.com/gauss-project/aurorafs/pkg/cac.Valid
+//@   ensures result == cacOK(ref(c))
+//@   assigns nothing
+//@ extern func github.com/gauss-project/aurorafs/pkg/soc.Valid
+//@   ensures result == socOK(ref(ch))
+//@   assigns nothing
+//@ extern func github.com/gauss-project/aurorafs/pkg/boson.NewChunk
+//@   ensures result != nil
+//@   assigns nothing
+//@ extern func (github.com/gauss-project/aurorafs/pkg/storage.Storer).Put
+//@   ensures err == nil ==> len(exist) == len(chs)
+//@   assigns nothing
+//@ extern func (github.com/gauss-project/aurorafs/pkg/p2p/protobuf.Reader).ReadMsgWithContext
+//@   assigns target(msg)
+//@ extern func (github.com/gauss-project/aurorafs/pkg/p2p/protobuf.Writer).WriteMsgWithContext
+//@   assigns nothing
+//@ extern func (github.com/gauss-project/aurorafs/pkg/accounting.Interface).Credit
+//@   assigns nothing
+//@ extern func (github.com/gauss-project/aurorafs/pkg/accounting.Interface).Reserve
+//@   assigns nothing
+//@ extern func (github.com/gauss-project/aurorafs/pkg/chunkinfo.Interface).OnChunkRetrieved
+//@   assigns nothing
+
+//@ extern func (github.com/gauss-project/aurorafs/pkg/retrieval/aco.Route).ToString
+//@   assigns nothing
+//@ extern func (*github.com/gauss-project/aurorafs/pkg/retrieval/aco.AcoServer).OnDownloadStart
+//@   assigns nothing
+//@ extern func (*github.com/gauss-project/aurorafs/pkg/retrieval/aco.AcoServer).OnDownloadEnd
+//@   assigns nothing
+//@ extern func (*github.com/gauss-project/aurorafs/pkg/retrieval/aco.AcoServer).OnDownloadFinish
+//@   assigns nothing
+
+//@ extern func context.WithTimeout
+//@   ensures result0 != nil && result1 != nil
+//@   assigns nothing
+//@ extern func (github.com/gauss-project/aurorafs/pkg/p2p.Streamer).NewStream
+//@   ensures result1 == nil ==> result0 != nil
+//@   assigns nothing
+
+//@ # a chunk delivered by a peer is stored, reported and returned only if it is a valid content-addressed
+//@ # or single-owner chunk for the requested address
+//@ func (*Service).retrieveChunk
+//@   property C06
+//@   requires ctx != nil && s != nil && s.storer != nil && s.accounting != nil && s.chunkinfo != nil && s.acoServer != nil && s.routeTab != nil && s.streamer != nil && s.logger != nil
+//@   requires s.metrics.TotalErrors != nil && s.metrics.TotalRetrieved != nil && s.metrics.InvalidChunkRetrieved != nil
+//@   ensures returned-only-if-valid: err == nil ==> chunk != nil && (cacOK(ref(chunk)) || socOK(ref(chunk)))
+//@   callassert Storer.Put stored-only-if-valid: len($chs) == 1 && $chs[0] == chunk && (cacOK(ref(chunk)) || socOK(ref(chunk)))
+//@   callassert Interface.OnChunkRetrieved reported-only-if-valid: cacOK(ref(chunk)) || socOK(ref(chunk))
+//@   callassert Interface.Credit credited-only-if-valid: cacOK(ref(chunk)) || socOK(ref(chunk))
